@@ -92,7 +92,8 @@ func (c *Catalog) Version() string {
 type PageTree struct {
 	root     core.Dict
 	resolver ObjectResolver
-	pages    []*Page // Cached flattened page list
+	pages    []*Page                   // Cached flattened page list
+	visited  map[core.IndirectRef]bool // Kids already entered during traversal (cycle guard)
 }
 
 // NewPageTree creates a new page tree from the root pages dictionary
@@ -149,6 +150,7 @@ func (t *PageTree) Pages() ([]*Page, error) {
 // loadPages traverses the page tree and builds the flattened page list
 func (t *PageTree) loadPages() error {
 	t.pages = make([]*Page, 0)
+	t.visited = make(map[core.IndirectRef]bool)
 
 	// Start recursive traversal from root
 	if err := t.traversePageNode(t.root, nil); err != nil {
@@ -217,6 +219,15 @@ func (t *PageTree) traversePageNode(node core.Dict, parent core.Dict) error {
 
 		// Traverse each child
 		for i, kidObj := range kids {
+			// A node of a tree is reachable once; a second visit means /Kids
+			// points back to an ancestor (or shares a subtree) and would recurse forever
+			if ref, ok := kidObj.(core.IndirectRef); ok {
+				if t.visited[ref] {
+					return fmt.Errorf("page tree is not a tree: object %d reached twice", ref.Number)
+				}
+				t.visited[ref] = true
+			}
+
 			// Resolve child reference
 			kidResolved, err := t.resolver.Resolve(kidObj)
 			if err != nil {
